@@ -114,6 +114,17 @@ pub fn run_op(line: &str) -> String {
         "enc" if toks[1] == "v5" => crate::pktops::v5_enc(&toks[2..]),
         "poll" if toks[1] == "v5" => crate::pktops::v5_poll(&unhex(toks[2]).unwrap(), crate::pktops::parse_sched(toks[3]).unwrap(), crate::pktops::parse_term(toks[4]).unwrap()),
         "cwp" if toks[1] == "v5" => crate::pktops::v5_cwp(toks[2], toks[3].parse().unwrap(), &unhex(toks[4]).unwrap()),
+        "spec" => {
+            use crate::fam::{Fam, V3, V5};
+            fn go<F: Fam>(b: &[u8]) -> String {
+                match F::poll(b, vec![], crate::sio::Term::Eof).res {
+                    Ok((t, _, p)) => format!("accept {} {}", t, F::show(&p)),
+                    Err(_) => "reject".into(),
+                }
+            }
+            let b = unhex(toks[2]).unwrap();
+            if toks[1] == "v3" { go::<V3>(&b) } else { go::<V5>(&b) }
+        }
         "enca" => {
             use crate::fam::{Fam, V3, V5};
             use crate::sio::WItem;
@@ -168,7 +179,7 @@ pub fn run_op(line: &str) -> String {
                     _ => false,
                 },
             };
-            if ok { "valid=1 rt=1".into() } else { "outside".into() }
+            if ok { "valid=1 rt=1 spec=1".into() } else { "outside".into() }
         }
         other => format!("bad-op {}", other),
     }
